@@ -62,3 +62,30 @@ Proof.
   assert (qa = N) by (unfold swap_input in Hsw; minv Hsw; inv_ok; reflexivity). subst qa.
   exists vm', ba. exact Hsw.
 Qed.
+
+(* C05, first clause at transaction level: an OpenPosition transaction succeeds only with 1 <= leverage <= 1/initial ratio *)
+From MP.Proofs Require Import EngineGuards.
+Theorem open_position_tx_leverage f w t v s m l lim funds w' :
+  exec_op f w (OEngine t (EOpenPosition v s m l lim) funds) = Ok w' ->
+  0 <= e_init (ec (w_eng w)) -> 0 < e_dec (ec (w_eng w)) ->
+  e_dec (ec (w_eng w)) <= l /\ l * e_init (ec (w_eng w)) <= e_dec (ec (w_eng w)) * e_dec (ec (w_eng w)).
+Proof.
+  intros H Hi HD.
+  cbn [exec_op] in H. revert H. generalize FUEL. intros fuel H.
+  destruct (attach_funds w t A_ENGINE funds) as [w0|] eqn:Ea; [|discriminate]. cbn [bind] in H.
+  cbn [engine_execute] in H.
+  destruct (e_open_position w0 t v s m l lim funds) as [[w1 subs]|] eqn:Eo; [|discriminate].
+  pose proof (attach_funds_core _ _ _ _ _ Ea) as [E1 _].
+  pose proof (open_leverage_bounds _ _ _ _ _ _ _ _ _ Eo) as Hb. rewrite E1 in Hb. exact (Hb Hi HD).
+Qed.
+
+(* contrapositive, as a failed step: a leverage outside the bounds makes the transaction fail and changes nothing *)
+Theorem open_position_tx_leverage_refused f w t v s m l lim funds :
+  0 <= e_init (ec (w_eng w)) -> 0 < e_dec (ec (w_eng w)) ->
+  l < e_dec (ec (w_eng w)) \/ e_dec (ec (w_eng w)) * e_dec (ec (w_eng w)) < l * e_init (ec (w_eng w)) ->
+  step_f f w (OEngine t (EOpenPosition v s m l lim) funds) = (w, false).
+Proof.
+  intros Hi HD Hl. unfold step_f.
+  destruct (exec_op f w (OEngine t (EOpenPosition v s m l lim) funds)) as [w'|e] eqn:E; [|reflexivity].
+  exfalso. destruct (open_position_tx_leverage _ _ _ _ _ _ _ _ _ _ E Hi HD). lia.
+Qed.
